@@ -1013,7 +1013,9 @@ def orc_labels(case):
                 if [int(o) for o in mg.obs_descriptors['oid']] != [ids[0][i] for u in distinct for i in range(n) if _eq(lab[i], u)]:
                     return 'merge of the parts is not their concatenation in list order'
         elif what == 'subset':
-            for value in list(distinct) + ([[distinct[-1], distinct[0]]] if len(distinct) > 1 else []):
+            # (a list may name a value twice, e.g. another dataset's descriptor column: every matching item still once)
+            for value in list(distinct) + ([[distinct[-1], distinct[0]]] if len(distinct) > 1 else []) + [[distinct[0], distinct[0]]] \
+                    + ([[distinct[0], distinct[-1], distinct[0]]] if len(distinct) > 1 else []):
                 if axis == 'time':
                     if isinstance(value, list):
                         continue
